@@ -47,7 +47,10 @@ def strategy(tier):
             dirs = draw(st.lists(comp(), min_size=0, max_size=6))
             # the last element is the lookup key for candidates: mostly a plain name so that a candidate can exist
             last = draw(st.one_of(st.sampled_from(BENIGN), st.sampled_from(BENIGN), comp()))
-            files.append({"path": dirs + [last], "size": draw(st.sampled_from([1, 5, 16384, 16385, 20000])), "seed": i + draw(st.integers(0, 50))})
+            files.append({"path": dirs + [last], "size": draw(st.sampled_from([0, 1, 5, 16384, 16385, 20000])), "seed": i + draw(st.integers(0, 50))})
+        if nfiles >= 2 and draw(st.sampled_from([True] + [False] * 3)):
+            # two entries that denote the same destination path ('f' and './f'), the second one larger
+            files[1] = {"path": [draw(st.sampled_from([".", ""]))] + list(files[0]["path"]), "size": files[0]["size"] + 16384, "seed": files[0]["seed"] + 1}
         name = draw(st.one_of(comp(), st.sampled_from(BENIGN), st.lists(st.just(".."), min_size=1, max_size=6).map("/".join)))
         return {"version": version, "name": name, "single": single, "files": files, "P": 16384,
                 "order": draw(st.sampled_from([0, 1, 2]))}
@@ -64,6 +67,8 @@ def build_meta(case, sandbox_root):
     name = _resolve(case["name"], sandbox_root).encode()
     files = case["files"]
     datas = [sandbox.content("nz", f["seed"], f["size"]) for f in files]
+    if case["version"] in (2, 3) and all(len(d) == 0 for d in datas):
+        pass
     info = {b"name": name, b"piece length": P}
     doc = {}
     if case["version"] in (2, 3):
@@ -71,6 +76,8 @@ def build_meta(case, sandbox_root):
         tree = {}
 
         def leaf(data):
+            if len(data) == 0:
+                return {b"": {b"length": 0}}
             root, layer = hashing.merkle(data, P)
             if len(data) > P:
                 layers[root] = layer
@@ -142,6 +149,7 @@ def run_case(case):
                 os.makedirs(sub, exist_ok=True)
                 with open(os.path.join(sub, base), "wb") as fd:
                     fd.write(d)
+                os.chmod(os.path.join(sub, base), 0o444 if i % 2 else 0o644)
                 attempted = True
         hostile = is_hostile(case["name"]) or any(is_hostile(c) for f in case["files"] for c in f["path"])
         before = sandbox.snapshot(scr)
